@@ -360,6 +360,13 @@ pub fn dispatch(t: &[Tok]) -> String {
                 Ok(h) => format!("{}", h.body().quartile(n(t, 3) as usize)),
             }
         }),
+        "valid" => for_variant!(s(t, 1), T, {
+            // FuzzyHashChecksum::is_valid / FuzzyHashLengthEncoding::is_valid of a value (any build)
+            match T::try_from(b(t, 2)) {
+                Err(e) => format!("hasherr {:?}", e),
+                Ok(h) => format!("{} {}", h.checksum().is_valid() as u8, h.length().is_valid() as u8),
+            }
+        }),
         "clearcks" => for_variant!(s(t, 1), T, {
             match T::try_from(b(t, 2)) {
                 Err(e) => format!("hasherr {:?}", e),
